@@ -1,6 +1,9 @@
 package validator
 
-import e "github.com/aml-org/amf-custom-validator/pkg/events"
+import (
+	"fmt"
+	e "github.com/aml-org/amf-custom-validator/pkg/events"
+)
 
 func dispatchEvent(event e.Event, eventChan *chan e.Event) {
 	if eventChan != nil {
@@ -11,5 +14,17 @@ func dispatchEvent(event e.Event, eventChan *chan e.Event) {
 func CloseEventChan(eventChan *chan e.Event) {
 	if eventChan != nil {
 		close(*eventChan)
+	}
+}
+
+// recoverAsError turns a panic raised while processing a malformed profile or data document into the error
+// returned by the enclosing function, so that no panic escapes the public API
+func recoverAsError(err *error) {
+	if r := recover(); r != nil {
+		if cause, ok := r.(error); ok {
+			*err = fmt.Errorf("unexpected error: %w", cause)
+		} else {
+			*err = fmt.Errorf("unexpected error: %v", r)
+		}
 	}
 }
